@@ -176,22 +176,15 @@ impl<'v> StarlarkValue<'v> for Range {
         heap: Heap<'v>,
     ) -> crate::Result<Value<'v>> {
         let (start, stop, step) = convert_slice_indices(self.length()?, start, stop, stride)?;
+        // Compute in `i64`: an intermediate product may overflow `i32`
+        // even when the resulting bound itself fits.
+        let bound = |index: i32| -> crate::Result<i32> {
+            i32::try_from(self.start as i64 + index as i64 * self.step.get() as i64)
+                .map_err(|_| ValueError::IntegerOverflow.into())
+        };
         return Ok(heap.alloc(Range {
-            start: self
-                .start
-                .checked_add(
-                    start
-                        .checked_mul(self.step.get())
-                        .ok_or(ValueError::IntegerOverflow)?,
-                )
-                .ok_or(ValueError::IntegerOverflow)?,
-            stop: self
-                .start
-                .checked_add(
-                    stop.checked_mul(self.step.get())
-                        .ok_or(ValueError::IntegerOverflow)?,
-                )
-                .ok_or(ValueError::IntegerOverflow)?,
+            start: bound(start)?,
+            stop: bound(stop)?,
             step: NonZeroI32::new(
                 step.checked_mul(self.step.get())
                     .ok_or(ValueError::IntegerOverflow)?,
